@@ -112,7 +112,7 @@ func C11(e *simkern.Env) {
 	tp := e.Tape
 	nOps := 1 + tp.Draw(3)
 	ops := pipew.GenOps(tp, pipew.GenCfg{MinOps: nOps, MaxOps: nOps, OnlyStream: true, FailBias: 4, InitFail: true,
-		Cancel: true, Cast: true, Levels: true, MaxTurns: 7, NonceBase: 11000, EmitMeta: true, ZeroRows: true, AfterCancel: true})
+		Cancel: true, Cast: true, Levels: true, MaxTurns: 7, NonceBase: 11000, EmitMeta: true, ZeroRows: true, AfterCancel: true, NoHook: true})
 	for _, op := range ops {
 		if op.StreamKind == "producer" {
 			op.CancelAt = -1
